@@ -39,6 +39,11 @@ CHECKS = {
     technique="TLA+ inverse of the extraction (Reach.tla: conforming packet per signature and grid choice, acceptable labels, code-model prediction) evaluated by TLC over the bundled database exported by the code's own loader; packets replayed through the real analyzer with the bundled matcher",
     text="For every TCP SYN and SYN+ACK signature of the bundled p0f.fp and every grid choice (IPv4/IPv6, hop counts, MSS and scale where open, ECN placement, payload) TLC builds the conforming packet, proves on the definitions that it conforms, and computes the acceptable labels (own, or an earlier entry the packet conforms to equally); the real analyzer must report one of them. A wrong or missing label is a violation unless the code model predicts exactly that label and every reason it gives is a recorded finding, so a signature that dies for a new reason is reported.",
     note="Trusted: TLC, Reach/TcpExtract/Match, harness projection. Grid is bounded (quick: 1 MSS, 1 scale, 2 hop counts; thorough: 4x3x4). HTTP signatures are covered by the HTTP half once built."),
+ "C04": dict(
+    level="model_checking", design="§5 C04",
+    technique="TLA+ definition of JA4 with wire rendering of ClientHello (Ja4.tla); TLC checks permutation/GREASE invariance laws and generates hello bytes with the specified JA4 parts; replayed into parse_tls_client_hello + generate_ja4(_original) and the packet-level analyzer",
+    text="The JA4 parts (a, b, c sorted and original, version selection, SNI flag, saturating counts, ALPN characters, GREASE removal, signature algorithms in wire order, empty-list rule) are defined in TLA+ over an abstract ClientHello that the same module renders to record bytes; TLC proves on the definition that the sorted parts are invariant under all 576 permutation pairs and GREASE insertions while the original parts follow the bytes, and every enumerated hello (version table, presence matrix, permutations, GREASE placements, sizes around 99, session-id/compression/unknown-extension variants) must be reported by the real code with exactly those strings, both through the parser API and through a one-segment connection.",
+    note="Trusted: TLC, Ja4.tla, SHA-256 by Python hashlib on the spec's strings. ALPN restricted to alphanumeric first/last characters; extension bodies of known types are well-formed."),
 }
 
 NOT_YET = {}
